@@ -67,6 +67,11 @@ Cases == {c \in [f : Faults, k : Kinds, log : LogModes] :
             /\ ~(c.k = "CONNECTviaProxy" /\ c.f \in {"cut_head", "rst_head", "bad_status_line", "bad_field", "bad_field_ctl", "bad_value_ctl", "trailing_garbage"})
             /\ (c.log # "errors" => BodyPhase(c.f) /\ c.k \in {"GET", "POST", "GETviaProxy", "MITMGET"})}
 
+\* Concurrent: the same fault (a refused dial) hits many exchanges at once, each on its own client connection and for its
+\* own target. The outcome of every one of them is the outcome of the fault alone - an error response of its own, naming its
+\* own target, "never ... mixed with another"; the harness runs 32 clients x N requests (command c12-conc).
+ConcurrentOutcome == Outcome("dial_refused", "GET")
+
 VARIABLE dummy
 GInit == dummy \in Cases
 GNext == FALSE /\ UNCHANGED dummy
